@@ -3,11 +3,11 @@ package main
 // Calls: builtins, contracts at call sites, havoc of unknown callees.
 
 import (
-	"strconv"
-	"sort"
 	"fmt"
 	"go/ast"
 	"go/types"
+	"sort"
+	"strconv"
 	"strings"
 
 	"golang.org/x/tools/go/ssa"
@@ -1041,7 +1041,9 @@ func (fx *FnExec) atCallAsserts(in ssa.Instruction, c *ssa.CallCommon, args []Va
 			fx.outside = append(fx.outside, fmt.Sprintf("atcall %s: %v", ac.Callee, err))
 			continue
 		}
+		fx.noAssumeNext = ac.NoAssume
 		o := fx.oblige("atcall", t, in, fmt.Sprintf("at the call of %s (#%d): %s", ac.Callee, k+1, ac.Expr.Text))
+		fx.noAssumeNext = false
 		o.Props = ac.Expr.Props
 	}
 }
